@@ -19,6 +19,7 @@ import (
 	"encoding/binary"
 	"encoding/json"
 	"fmt"
+	"io"
 	"io/fs"
 	"os"
 	"path/filepath"
@@ -92,7 +93,7 @@ type seedEnt struct {
 type histCase struct {
 	Kind  string    `json:"kind"`
 	NPre  int       `json:"npre"`
-	Mount string    `json:"mount,omitempty"` // "" / "dir": WithDirMount; "dirfs": WithFSMount(os.DirFS(dir)); "mapfs": WithFSMount(fstest.MapFS)
+	Mount string    `json:"mount,omitempty"` // "" / "dir": WithDirMount; "dirfs": WithFSMount(os.DirFS(dir)); "seekfs": the same with files that lack ReadAt; "mapfs": WithFSMount(fstest.MapFS)
 	Seed  []seedEnt `json:"seed,omitempty"`
 	Steps []step    `json:"steps"`
 }
@@ -124,7 +125,7 @@ type world struct {
 
 func newWorld(npre int, mount string, seed ...seedEnt) (*world, error) {
 	w := &world{ctx: context.Background(), m: fsmodel.New(npre), mount: mount}
-	w.m.ReadOnly = mount == "dirfs" || mount == "mapfs"
+	w.m.ReadOnly = mount == "dirfs" || mount == "mapfs" || mount == "seekfs"
 	w.m.NoTrailingSlash = w.m.ReadOnly
 	w.base = filepath.Join(evid.WorkDir(), fmt.Sprintf("case-%d", caseCounter.Add(1)))
 	os.RemoveAll(w.base)
@@ -143,6 +144,8 @@ func newWorld(npre int, mount string, seed ...seedEnt) (*world, error) {
 		switch mount {
 		case "dirfs":
 			fsc = fsc.WithFSMount(os.DirFS(d), guest)
+		case "seekfs":
+			fsc = fsc.WithFSMount(seekOnlyFS{os.DirFS(d)}, guest)
 		case "mapfs":
 			fsc = fsc.WithFSMount(w.maps[i], guest)
 		default:
@@ -165,6 +168,31 @@ func newWorld(npre int, mount string, seed ...seedEnt) (*world, error) {
 	}
 	w.p = p
 	return w, nil
+}
+
+// seekOnlyFS is an fs.FS whose regular files offer Read, Seek, Stat and Close but neither
+// ReadAt nor anything else (directories are passed through): wazero has to serve fd_pread on
+// them by seeking, reading and seeking back.
+type seekOnlyFS struct{ fs.FS }
+
+type seekOnlyFile struct{ f fs.File }
+
+func (s seekOnlyFile) Stat() (fs.FileInfo, error) { return s.f.Stat() }
+func (s seekOnlyFile) Read(b []byte) (int, error) { return s.f.Read(b) }
+func (s seekOnlyFile) Close() error               { return s.f.Close() }
+func (s seekOnlyFile) Seek(off int64, whence int) (int64, error) {
+	return s.f.(io.Seeker).Seek(off, whence)
+}
+
+func (s seekOnlyFS) Open(name string) (fs.File, error) {
+	f, err := s.FS.Open(name)
+	if err != nil {
+		return nil, err
+	}
+	if st, err := f.Stat(); err == nil && st.Mode().IsRegular() {
+		return seekOnlyFile{f}, nil
+	}
+	return f, nil
 }
 
 // hostCreate / hostRemove change what is behind mount i directly (not through the guest).
@@ -740,6 +768,22 @@ func (w *world) applyListing(s step) string {
 	if msg != "" || !okc {
 		return msg
 	}
+	if exp.Either {
+		// the directory was renamed/removed since the descriptor was opened: wazero (Go's
+		// Readdir) looks every entry up again under the old name, so entries may be missing
+		// and types may stem from a namesake; but no entry may appear that the directory this
+		// descriptor was opened on does not hold
+		seen := map[string]bool{}
+		for _, e := range got {
+			_, mine := want[e.Name]
+			if e.Name != "." && e.Name != ".." && !mine || seen[e.Name] {
+				return fmt.Sprintf("%s: the directory was renamed/removed since this descriptor was opened; the listing contains %q, which is not an entry of the directory it was opened on (%v) or is repeated", fmtStep(s), e.Name, want)
+			}
+			seen[e.Name] = true
+		}
+		evid.Label("listing-of-renamed-dir-compared", 1)
+		return ""
+	}
 	wantL := []string{".:3", "..:3"}
 	for n, isDir := range want {
 		t := ftFile
@@ -1214,6 +1258,11 @@ func (w *world) genStep0(t *rapid.T) step {
 			return s
 		}
 	}
+	if !w.m.ReadOnly {
+		if s, ok := w.genDrift(t); ok {
+			return s
+		}
+	}
 	s := w.genStep1(t)
 	if w.m.ReadOnly {
 		s = w.roAdjust(t, s)
@@ -1229,6 +1278,62 @@ func (w *world) genStep0(t *rapid.T) step {
 		}
 	}
 	return s
+}
+
+// genDrift steers a share of the steps towards the history "open a directory, rename it away,
+// create another directory under the old name, put something into it, read the still-open
+// descriptor": the descriptor keeps naming the directory it was opened on.
+func (w *world) genDrift(t *rapid.T) (step, bool) {
+	if rapid.IntRange(0, 7).Draw(t, "drift") < 6 {
+		return step{}, false
+	}
+	pre := func(d *fsmodel.Desc) int32 {
+		for i, r := range w.m.Roots {
+			if r == d.Root {
+				return int32(3 + i)
+			}
+		}
+		return 3
+	}
+	var fresh, gone, taken []int32
+	for _, fd := range w.m.SortedFDs() {
+		d := w.m.FDs[fd]
+		if d.Stdio || d.Preopen || !d.Ino.Dir || len(d.Path) == 0 {
+			continue
+		}
+		if p := w.m.FDs[pre(d)]; p == nil || !p.Preopen {
+			continue
+		}
+		now := fsmodel.Resolve(d.Root, d.Path)
+		switch {
+		case now == d.Ino && d.Lists == 0:
+			fresh = append(fresh, fd)
+		case now == nil && fsmodel.Resolve(d.Root, d.Path[:len(d.Path)-1]) != nil:
+			gone = append(gone, fd)
+		case now != nil && now != d.Ino && now.Dir:
+			taken = append(taken, fd)
+		}
+	}
+	switch {
+	case len(taken) > 0:
+		fd := rapid.SampledFrom(taken).Draw(t, "takenfd")
+		d := w.m.FDs[fd]
+		if rapid.Bool().Draw(t, "fill") {
+			// an entry that tells the new directory from the old one
+			n := rapid.SampledFrom([]string{"x", "y", "z"}).Draw(t, "marker")
+			return step{Op: "path_open", FD: pre(d), Path: strings.Join(d.Path, "/") + "/" + n, Flags: "rwc"}, true
+		}
+		evid.Label("readdir-on-dir-whose-name-was-taken-over", 1)
+		return step{Op: "fd_readdir", FD: fd, Buf: rapid.SampledFrom([]uint32{4096, 64, 24, 100}).Draw(t, "buf")}, true
+	case len(gone) > 0:
+		d := w.m.FDs[rapid.SampledFrom(gone).Draw(t, "gonefd")]
+		return step{Op: "path_create_directory", FD: pre(d), Path: strings.Join(d.Path, "/")}, true
+	case len(fresh) > 0:
+		d := w.m.FDs[rapid.SampledFrom(fresh).Draw(t, "freshfd")]
+		to := rapid.SampledFrom([]string{"e", "g", "a", "b"}).Draw(t, "awayname")
+		return step{Op: "path_rename", FD: pre(d), Path: strings.Join(d.Path, "/"), To: pre(d), Path2: to}, true
+	}
+	return step{}, false
 }
 
 // roAdjust adapts a step to a read-only (fs.FS) mount: opens ask for reading only (what a
@@ -1343,7 +1448,18 @@ func (w *world) genStep1(t *rapid.T) step {
 	case "fd_read":
 		return step{Op: op, FD: pickFD(t, c.files, c.dirs, c.closed), Lens: genLens(t)}
 	case "fd_pread":
-		return step{Op: op, FD: pickFD(t, c.files, c.dirs, c.closed), Lens: genLens(t), Off: int64(rapid.IntRange(0, 80).Draw(t, "off"))}
+		st := step{Op: op, FD: pickFD(t, c.files, c.dirs, c.closed), Lens: genLens(t), Off: int64(rapid.IntRange(0, 80).Draw(t, "off"))}
+		if d := w.m.FDs[st.FD]; d != nil && d.Ino != nil && rapid.IntRange(0, 2).Draw(t, "atcur") != 0 {
+			// positional read exactly at (or next to) the descriptor's own offset
+			st.Off = d.Off + int64(rapid.SampledFrom([]int{0, 0, 0, 1, -1}).Draw(t, "curdelta"))
+			if st.Off < 0 {
+				st.Off = 0
+			}
+			if st.Off == d.Off {
+				evid.Label("pread-at-current-offset", 1)
+			}
+		}
+		return st
 	case "fd_write":
 		return step{Op: op, FD: pickFD(t, c.files, c.dirs, c.closed), Data: genData(t)}
 	case "fd_pwrite":
@@ -1380,10 +1496,7 @@ func (w *world) genStep1(t *rapid.T) step {
 	case "fd_readdir":
 		fd := pickFD(t, c.dirs, c.files, c.closed)
 		if d := w.m.FDs[fd]; d != nil && d.Ino != nil && d.Ino.Dir && !d.NameValid() {
-			// narrowing (v)/(ii): a directory descriptor is not read after its directory was
-			// removed or renamed (wazero re-opens it by name)
-			evid.Label("narrow-v-readdir-on-removed-or-renamed-dir", 1)
-			fd = 3
+			evid.Label("readdir-on-renamed-or-removed-dir", 1)
 		}
 		return step{Op: op, FD: fd, Buf: rapid.SampledFrom([]uint32{24, 25, 26, 32, 51, 52, 64, 100, 256, 4096}).Draw(t, "buf")}
 	case "path_create_directory", "path_remove_directory", "path_unlink_file":
@@ -1531,7 +1644,7 @@ func runHistoryProp(t *rapid.T) {
 	// mounts (other File implementation in wazero: fsFile) get a richer seed tree
 	// (a MapFS is used by the readdir generator only: its files refuse offsets beyond EOF and
 	// its lookups answer ENOENT below a file, which says nothing about wazero)
-	mount := rapid.SampledFrom([]string{"dir", "dir", "dirfs", "dir", "dir", "dirfs", "dir", "dir"}).Draw(t, "mount")
+	mount := rapid.SampledFrom([]string{"dir", "dir", "dirfs", "dir", "seekfs", "dir", "dirfs", "dir", "seekfs", "dir"}).Draw(t, "mount")
 	seed := genSeed(t, mount != "dir")
 	w, err := newWorld(npre, mount, seed...)
 	if err != nil {
